@@ -165,6 +165,16 @@ func (s *TunnelServiceHandler) openReverseTunnel(stream tunnelpb.TunnelService_O
 
 	ch := newReverseChannel(stream, &s.tunnelOpts, s.unregister)
 	defer ch.Close()
+	connected := false
+	defer func() {
+		// Deferred calls run last-in-first-out: this one runs after the ones
+		// below have removed the tunnel from the registry, so that the
+		// callback (where an application does its fail-over) never finds the
+		// tunnel it is being told about still listed and routable.
+		if connected && s.onReverseTunnelDisconnect != nil {
+			s.onReverseTunnelDisconnect(ch)
+		}
+	}()
 	verifYield("rev.open.created")
 
 	var key interface{}
@@ -181,11 +191,9 @@ func (s *TunnelServiceHandler) openReverseTunnel(stream tunnelpb.TunnelService_O
 	rc.add(ch, key)
 	defer rc.remove(ch)
 
+	connected = true
 	if s.onReverseTunnelConnect != nil {
 		s.onReverseTunnelConnect(ch)
-	}
-	if s.onReverseTunnelDisconnect != nil {
-		defer s.onReverseTunnelDisconnect(ch)
 	}
 
 	<-ch.Done()
